@@ -47,6 +47,20 @@ func (r *Run) havoc(t types.Type) Value {
 				s = &SliceV{}
 			}
 			return StructV{s, BVi(int64(8*nb), 64)}
+		case "github.com/jcmturner/gofork/encoding/asn1.ObjectIdentifier":
+			// one of the object identifiers the code knows, or an arbitrary short one
+			known := [][]int64{nil, {1, 2, 840, 113554, 1, 2, 2}, {1, 2, 840, 48018, 1, 2, 2}, {1, 3, 6, 1, 5, 5, 2}}
+			k := r.param("fixoid", 0) // fixoid=k: always the k-th known identifier
+			if k == 0 {
+				k = r.chooseInt(0, int64(len(known)-1))
+			}
+			if k > 0 {
+				s := r.makeSlice(types.Typ[types.Int], len(known[k]), len(known[k]))
+				for i, c := range known[k] {
+					elemsOf(s)[i] = BVi(c, 64)
+				}
+				return s
+			}
 		}
 	}
 	switch u := t.Underlying().(type) {
@@ -71,7 +85,7 @@ func (r *Run) havoc(t types.Type) Value {
 		}
 		return sv
 	case *types.Slice:
-		n := int(r.chooseInt(0, r.param("maxseq", 2)))
+		n := int(r.chooseSeqLen())
 		if n == 0 {
 			return &SliceV{}
 		}
@@ -108,6 +122,23 @@ func (r *Run) chooseStrLen() int64 {
 	}
 	r.addPC(c)
 	return r.concretise(v, "havoc string length")
+}
+
+// chooseSeqLen: a havoc'd slice has every length 0..maxseq, or (param seqlens = bit mask) one of the listed lengths
+func (r *Run) chooseSeqLen() int64 {
+	mask := r.param("seqlens", 0)
+	if mask == 0 {
+		return r.chooseInt(0, r.param("maxseq", 2))
+	}
+	v := r.hvar(64)
+	c := False
+	for i := int64(0); i < 62; i++ {
+		if mask&(1<<uint(i)) != 0 {
+			c = Or(c, Eq(v, BVi(i, 64)))
+		}
+	}
+	r.addPC(c)
+	return r.concretise(v, "havoc length")
 }
 
 func (r *Run) chooseInt(lo, hi int64) int64 {
@@ -458,7 +489,6 @@ func (e *Engine) registerStubs() {
 	in["log.New"] = func(r *Run, fr *Frame, cc *ssa.CallCommon, a []Value) Value {
 		return &PtrV{obj: r.newObj(types.Typ[types.Int], BVi(0, 64), "logger")}
 	}
-	in["context.Background"] = func(r *Run, fr *Frame, cc *ssa.CallCommon, a []Value) Value { return &IfaceV{} }
 	in["github.com/hashicorp/go-uuid.GenerateUUID"] = func(r *Run, fr *Frame, cc *ssa.CallCommon, a []Value) Value {
 		// 16 bytes from crypto/rand (the same input stream as natively), formatted 8-4-4-4-12 in lower-case hex
 		out := &StrV{}
@@ -666,7 +696,19 @@ func (e *Engine) registerStubs() {
 			}
 			if r.branch(dec) {
 				v := val
-				r.store(p, r.force(&v), lbl("havoc "+name))
+				nv := r.force(&v)
+				// a decoder never touches the receiver's unexported pointer-like fields (settings, context, ...)
+				if sv, ok := nv.(StructV); ok {
+					if st, ok := typ.Underlying().(*types.Struct); ok {
+						old := r.load(p, lbl("havoc "+name)).(StructV)
+						for i := 0; i < st.NumFields(); i++ {
+							if !st.Field(i).Exported() && isPtrLike(st.Field(i).Type()) {
+								sv[i] = old[i]
+							}
+						}
+					}
+				}
+				r.store(p, nv, lbl("havoc "+name))
 				r.logStub(name, "val", []Value{p}, []types.Type{pt})
 				return &IfaceV{}
 			}
@@ -674,6 +716,14 @@ func (e *Engine) registerStubs() {
 			return r.errNew(fr, "stub: decode error")
 		})
 	}
+}
+
+func isPtrLike(t types.Type) bool {
+	switch t.Underlying().(type) {
+	case *types.Pointer, *types.Interface, *types.Map, *types.Signature, *types.Chan:
+		return true
+	}
+	return false
 }
 
 func (r *Run) ghostLog(k string, v Value) {
